@@ -90,6 +90,16 @@ func GenPause(seed int64, idx int, tier string) *Plan {
 		}
 		p.Lanes = append(p.Lanes, []Cmd{c})
 	}
+	if idx%3 == 1 {
+		// the service has an error page of its own for 503 (C08: the stop message is rendered into it)
+		for _, lane := range p.Lanes {
+			for k := range lane {
+				if lane[k].Kind == "deploy" {
+					lane[k].ErrorPages = "@custom503"
+				}
+			}
+		}
+	}
 	nCli := 2 + rng.Intn(3)
 	rn := 0
 	for l := 0; l < nCli; l++ {
